@@ -13,27 +13,39 @@ def fresh (sros : List (Nat × List Nat)) : Comp :=
   let w := setBases 8 (w.setReg 1 {}) 1 []
   { w := w }
 def out (r : Comp × String × List Ev) : String := r.2.1 ++ " [" ++ " ".intercalate (r.2.2.map Ev.str) ++ "]"
-partial def loop (h : IO.FS.Stream) (s : Comp) (sros : List (Nat × List Nat)) : IO Unit := do
+/-- the eight mutators (and the refused calls): the new state, the return value, the events -/
+def mut? (s : Comp) (f : List String) : Option (Comp × String × List Ev) :=
+  match f with
+  | ["regU", _, _, "#b", _] => some (s, "ValueError", [])      -- a name that is not a string: refused, nothing written
+  | ["regU", _, _, "#n", _] => some (s, "ValueError", [])
+  | ["regU", _, _, "#t", _] => some (s, "ValueError", [])
+  | ["regA", _, _, _, "#b"] => some (s, "ValueError", [])
+  | ["regA", _, _, _, "#n"] => some (s, "ValueError", [])
+  | ["regA", _, _, _, "#t"] => some (s, "ValueError", [])
+  | ["regU", c, p, name, info] => some (registerUtility s (comp c).get! (if p.startsWith "^" then (p.drop 1).toString.toNat! else p.toNat!) (nm name) info)
+  | ["unregU", c, p, name] => some (unregisterUtility s (comp c) p.toNat! name)
+  | ["regA", c, req, p, name] => some (registerAdapter s (comp c).get! (nums req) p.toNat! (nm name) "i")
+  | ["unregA", c, req, p, name] => some (unregisterAdapter s (comp c) (nums req) p.toNat! name)
+  | ["regS", c, req, p] => some (registerSubscriptionAdapter s (comp c).get! (nums req) p.toNat! "i")
+  | ["unregS", c, req, p] => some (unregisterSubscriptionAdapter s (comp c) (nums req) p.toNat!)
+  | ["regH", c, req] => some (registerHandler s (comp c).get! (nums req) "i")
+  | ["unregH", c, req] => some (unregisterHandler s (comp c) (nums req))
+  | _ => none
+/-- `nest`: "" = nothing pending; "R" / "U" = the next call has a subscriber reacting to the first event of that kind by making
+    the call of the line after it; "!" = that subscriber fired (the next call is the one it made).  Every event is delivered when
+    the call that emits it has finished writing, so the two calls compose like two calls made one after the other. -/
+partial def loop (h : IO.FS.Stream) (s : Comp) (sros : List (Nat × List Nat)) (nest : String := "") : IO Unit := do
   let line ← h.getLine
   if line.isEmpty then return ()
   let f := (line.trimAscii.toString.splitOn "|").map fun s => s.trimAscii.toString
+  if let some r := mut? s f then
+    let fired := nest != "" && nest != "!" && r.2.2.any (fun e => (Ev.str e).startsWith nest)
+    IO.println (out r ++ (if nest == "!" then " NESTED" else ""))
+    return (← loop h r.1 sros (if fired then "!" else ""))
   match f with
+  | ["nest", k] => IO.println "ok"; loop h s sros k
   | ["reset"] => IO.println "ok"; loop h (fresh []) []
   | ["sro", i, l] => let sros := sros ++ [(i.toNat!, nums l)]; IO.println "ok"; loop h (fresh sros) sros
-  | ["regU", _, _, "#b", _] => IO.println "ValueError []"; loop h s sros      -- a name that is not a string: refused, nothing written
-  | ["regU", _, _, "#n", _] => IO.println "ValueError []"; loop h s sros
-  | ["regU", _, _, "#t", _] => IO.println "ValueError []"; loop h s sros
-  | ["regA", _, _, _, "#b"] => IO.println "ValueError []"; loop h s sros
-  | ["regA", _, _, _, "#n"] => IO.println "ValueError []"; loop h s sros
-  | ["regA", _, _, _, "#t"] => IO.println "ValueError []"; loop h s sros
-  | ["regU", c, p, name, info] => let r := registerUtility s (comp c).get! (if p.startsWith "^" then (p.drop 1).toString.toNat! else p.toNat!) (nm name) info; IO.println (out r); loop h r.1 sros
-  | ["unregU", c, p, name] => let r := unregisterUtility s (comp c) p.toNat! name; IO.println (out r); loop h r.1 sros
-  | ["regA", c, req, p, name] => let r := registerAdapter s (comp c).get! (nums req) p.toNat! (nm name) "i"; IO.println (out r); loop h r.1 sros
-  | ["unregA", c, req, p, name] => let r := unregisterAdapter s (comp c) (nums req) p.toNat! name; IO.println (out r); loop h r.1 sros
-  | ["regS", c, req, p] => let r := registerSubscriptionAdapter s (comp c).get! (nums req) p.toNat! "i"; IO.println (out r); loop h r.1 sros
-  | ["unregS", c, req, p] => let r := unregisterSubscriptionAdapter s (comp c) (nums req) p.toNat!; IO.println (out r); loop h r.1 sros
-  | ["regH", c, req] => let r := registerHandler s (comp c).get! (nums req) "i"; IO.println (out r); loop h r.1 sros
-  | ["unregH", c, req] => let r := unregisterHandler s (comp c) (nums req); IO.println (out r); loop h r.1 sros
   -- the history's `Components` is of the picklable kind: its two registries are (picklable) verifying adapter registries
   | ["persist"] => IO.println "ok"; loop h { s with w := { s.w with verifying := true } } sros
   -- pickle round trip: the volatile counter cache and the lookup objects are rebuilt from what was pickled
